@@ -924,7 +924,37 @@ func checkScatter(p *core.Prog, r *core.Report, ds *core.Describer, f *ssa.Funct
 			}
 			okAll := true
 			why := ""
-			for _, lf := range core.PhiLeaves(bound, gl0(f, bound)) {
+			// a worker count written as one expression of the input length and the extent (1 + (n-1)/e, (n+e-1)/e, …) is
+			// decided by evaluating it: it must be ceil(n/e) for every n >= 1 and 1 <= e <= n
+			leaves := core.PhiLeaves(bound, gl0(f, bound))
+			if len(leaves) == 1 {
+				if ls, _ := arithLeaves(leaves[0].V); len(ls) == 2 && (ls[0] == ssa.Value(inputLen) || ls[1] == ssa.Value(inputLen)) {
+					ext := ls[0]
+					if ext == ssa.Value(inputLen) {
+						ext = ls[1]
+					}
+					evaluable, agrees := true, true
+					for n := int64(1); n <= 40 && evaluable; n++ {
+						for e := int64(1); e <= n; e++ {
+							v, ok := evalArith(leaves[0].V, map[ssa.Value]int64{ssa.Value(inputLen): n, ext: e})
+							if !ok {
+								evaluable = false
+								break
+							}
+							if v != (n+e-1)/e {
+								agrees = false
+							}
+						}
+					}
+					if evaluable {
+						if !agrees {
+							okAll, why = false, "the worker count "+ds.D(leaves[0].V).String()+" is not ceil(inputLen/extent) for every input length and extent"
+						}
+						leaves = nil
+					}
+				}
+			}
+			for _, lf := range leaves {
 				if ext, ok := isQuot(lf.V); ok {
 					// bare quotient: only where the remainder is zero
 					g := func(c core.Cond) int {
